@@ -346,5 +346,3 @@ def replay(sub, case, T):
 
 def selftest():
     ref11.selftest()
-    assert scans_as_plain('1:30', yaml.SafeLoader) and not scans_as_plain('a: b', yaml.SafeLoader) and not scans_as_plain(' 1', yaml.SafeLoader)
-    assert construct('12', TAGOF['int'], yaml.SafeLoader) == 12
